@@ -8,11 +8,11 @@ import CifModel.Model.Fill
 
     parse <dia 1|2> <max_frame_depth> <line_folding_modifier> <text_prefixing_modifier> <extra_ws hex|-> <extra_eol hex|->
           <not_utf8 0|1> <policy> <target n|e|p> <hex document> [pre <cif tokens …>] [| annotation …]
-      ↦ ps rc=<return value> n=<callback invocations> log=<code>:<line>,…|- ops=<b>,<f>,<s>,<l>,<p>,<r> cif=<canonical dump>|~
+      ↦ ps rc=<return value> n=<callback invocations> log=<code>:<line>,…|- ops=<b>,<f>,<s>,<l>,<p>,<r> seq=<letters|-> sto=<…> cif=<canonical dump>|~
 
   `ops` = the numbers of successful store calls the instrumented parser (Model/ParserTrace.lean) records: blocks created, save
   frames created, cif_container_set_value, cif_container_create_loop, cif_loop_add_packet, cif_container_prune — the executor
-  counts the same calls of the real parser.
+  counts the same calls of the real parser; `seq` = the same calls in order of occurrence, one letter each (b f s l p r).
   `sto` (model side only; fresh target): the trace translated into a history of the STORE model (Model/ParserStoreOps.storeOps) and
   run through `Store.step` from a new CIF: `ok` = every call returned CIF_OK and the store then shows (`Store.abs`) exactly the CIF
   the parser model built (same enumeration orders); `ord` = the same content in another order; `BAD…` = the composition of the
@@ -92,6 +92,7 @@ def answer (args : List String) : Option String :=
     let tr := storeTrace o policy initial units
     let cnt (p : SOp → Bool) : Nat := (tr.filter p).length
     let ops := s!"{cnt (fun | .mkBlock .. => true | _ => false)},{cnt (fun | .mkFrame .. => true | _ => false)},{cnt (fun | .setVal .. => true | _ => false)},{cnt (fun | .mkLoop .. => true | _ => false)},{cnt (fun | .addPkt .. => true | _ => false)},{cnt (fun | .prune .. => true | _ => false)}"
+    let seq := String.ofList (tr.map fun | .mkBlock .. => 'b' | .mkFrame .. => 'f' | .setVal .. => 's' | .mkLoop .. => 'l' | .addPkt .. => 'p' | .prune .. => 'r')
     let sto : String :=
       if !(tr.all fun op => op.values.all numbFree) then "BADnumb" else
       if tgt != "e" then "skip" else
@@ -106,7 +107,7 @@ def answer (args : List String) : Option String :=
           else if CifArg.showCanonCif (Store.abs st.db) == CifArg.showCanonCif out.cif then "ord"
           else "BAD"
     let dump := if store then (let t := CifArg.showCanonCif out.cif; if t.isEmpty then " -" else t) else "~"
-    pure s!"ps rc={out.rc} n={out.log.length} log={joinOrDash (out.log.map fun r => s!"{r.code}:{r.line}")} ops={ops} sto={sto} cif={dump}"
+    pure s!"ps rc={out.rc} n={out.log.length} log={joinOrDash (out.log.map fun r => s!"{r.code}:{r.line}")} ops={ops} seq={if seq.isEmpty then "-" else seq} sto={sto} cif={dump}"
   | _ => none
 
 def handle : Handler := answer
